@@ -160,7 +160,9 @@ def nan_patterns(job, lim):
                     for i in range(n):
                         out[i] = nan if pattern[i] else vals[i]
                     return out.reshape(zshape).view(sn.SymArr)
-                return np.ones(np.shape(z)) * 2.0
+                # the limit machinery passes the NaN points in flat order: give each its own constant, so that a
+                # misplaced write-back is visible
+                return np.array([10.0 + i for i in range(n) if pattern[i]])[:np.size(z)].reshape(np.shape(z))
 
             def harness():
                 del calls[:]
@@ -180,7 +182,7 @@ def nan_patterns(job, lim):
                     ok &= vl[i] is vals[i] or (sn.is_sym(vl[i]) and z3.is_true(z3.simplify(sn.lift(vl[i]) == vals[i].t)))
                     ok &= float(el[i]) == 0.0 and float(np.real(fl[i])) == 0.0
                 else:
-                    ok &= (not sn.is_sym(vl[i])) and float(np.real(vl[i])) == 2.0
+                    ok &= (not sn.is_sym(vl[i])) and abs(float(np.real(vl[i])) - (10.0 + i)) < 1e-9
             nan_pos = [i for i in range(n) if pattern[i]]
             for c in cl[1:]:
                 ok &= c.shape == (len(nan_pos),) and all(abs(c[j] - z0[i]) > 0 for j, i in enumerate(nan_pos))
@@ -391,7 +393,7 @@ def replay(cex):
             calls.append(1)
             if len(calls) == 1:
                 return np.where(np.array(pattern) == 1, np.nan, vals).reshape(zshape)
-            return np.ones(np.shape(z)) * 2.0
+            return np.array([10.0 + i for i in range(n) if pattern[i]])[:np.size(z)].reshape(np.shape(z))
         try:
             with cm.quiet():
                 val, info = lim.Limit(f, full_output=True)(z0)
@@ -404,8 +406,8 @@ def replay(cex):
         for i in range(n):
             if not pattern[i] and (val[i] != vals[i] or info.error_estimate[i] != 0):
                 return True, 'finite entry %d changed from %r to %r (pattern %s)' % (i, vals[i], val[i], pattern)
-            if pattern[i] and val[i] != 2.0:
-                return True, 'NaN entry %d replaced by %r, limit of the constant function is 2.0' % (i, val[i])
+            if pattern[i] and abs(val[i] - (10.0 + i)) > 1e-9:
+                return True, 'NaN entry %d replaced by %r, the limit at that point is %r (pattern %s)' % (i, val[i], 10.0 + i, pattern)
         return False, 'NaN-only replacement ok'
     z0 = _z0(zk)
     for trial in range(4):
